@@ -274,11 +274,10 @@ fn build_stream(tag: &str, req: usize, events: &[Sse], done: bool, partial_tail:
     (sc, seen)
 }
 
+/// an endpoint nobody listens on: privileged port 1 on loopback is refused deterministically (a port
+/// obtained by bind-and-drop could be re-used by another process on this shared box)
 fn closed_port_url() -> String {
-    let l = std::net::TcpListener::bind("127.0.0.1:0").expect("bind");
-    let a = l.local_addr().unwrap();
-    drop(l);
-    format!("http://{a}/v1/responses")
+    "http://127.0.0.1:1/v1/responses".to_string()
 }
 
 /// starts the scripted provider of one activity; returns (provider guard, endpoint, per-request Seen or the fixed outcome)
